@@ -382,3 +382,135 @@ def reaching_stores(mod, f, at, insn):
                 seen.add(p)
                 work.append((p, len(f.blocks[p].insns)))
     return out
+
+
+# ------------------------------------------------------------------ data-dependent early exits of scan loops
+def natural_loops(f):
+    """{header: set of blocks} (bodies of loops sharing a header are merged)"""
+    loops = {}
+    for b in f.order:
+        for s in f.blocks[b].succs:
+            if f.dominates(s, b):          # back edge b -> s
+                body = {s, b}
+                work = [b]
+                while work:
+                    x = work.pop()
+                    if x == s:
+                        continue
+                    for p in f.blocks[x].preds:
+                        if p not in body:
+                            body.add(p)
+                            work.append(p)
+                loops.setdefault(s, set()).update(body)
+    return loops
+
+
+def data_exits(mod, f, is_data):
+    """edges (block, target) that leave a loop and are taken on a condition whose value depends on loaded data
+    (is_data(dep) selects the dependencies that count as data): the 'found it' exits of a scan loop"""
+    P = prov(mod, f)
+    loops = natural_loops(f)
+    out = []
+    for b in f.order:
+        t = f.blocks[b].insns[-1]
+        if t.op != 'br' or not t.extra.get('cond'):
+            continue
+        inl = [L for L in loops.values() if b in L]
+        if not inl:
+            continue
+        if not any(is_data(d) for d in P.deps(t.extra['cond'])):
+            continue
+        for tgt in t.extra['targets']:
+            if any(tgt not in L for L in inl):
+                out.append((b, tgt, t))
+    return out
+
+
+def nonzero_on_paths(mod, f, edge, maxpaths=64):
+    """enumerate the paths from CFG edge (b, tgt) to the returns; for each, classify the returned value as
+    ('const', c) | ('nonzero', why) | ('unknown', text).  Phis are resolved by the incoming edge, conditional
+    branches on values known on the path are followed only along the consistent edge; a comparison with 0 taken
+    on the path makes the compared value non-zero.  Returns [(class, [blocks])]; raises AnalysisBroken if a path re-enters a block."""
+    b0, t0, _ = edge
+    results = []
+
+    def ev(v, env, nz):
+        if re.match(r'^-?\d+$', v):
+            return ('const', int(v))
+        if v in env:
+            return env[v]
+        sv = _strip(f, v)
+        if sv != v:
+            return ev(sv, env, nz)
+        if v in nz:
+            return ('nonzero', nz[v])
+        d = f.defs.get(v)
+        if d is None:
+            return ('unknown', v)
+        if d.op == 'or':
+            a, c = ev(d.ops[0], env, nz), ev(d.ops[1], env, nz)
+            for x in (a, c):
+                if x[0] == 'nonzero' or (x[0] == 'const' and x[1] != 0):
+                    return ('nonzero', 'bitwise OR with a non-zero value')
+            if a[0] == 'const' and c[0] == 'const':
+                return ('const', a[1] | c[1])
+        if d.op == 'select':
+            c = ev(d.ops[0], env, nz)
+            if c[0] == 'const' or c[0] == 'nonzero':
+                return ev(d.ops[1] if (c[0] == 'nonzero' or c[1]) else d.ops[2], env, nz)
+            a, e = ev(d.ops[1], env, nz), ev(d.ops[2], env, nz)
+            if all(x[0] == 'nonzero' or (x[0] == 'const' and x[1] != 0) for x in (a, e)):
+                return ('nonzero', 'both select arms non-zero')
+        if d.op == 'icmp':
+            a, c = ev(d.ops[0], env, nz), ev(d.ops[1], env, nz)
+            if a[0] == 'const' and c[0] == 'const':
+                return ('const', int(_sat(d.extra['pred'], a[1], c[1])))
+            if c == ('const', 0) and a[0] == 'nonzero' and d.extra['pred'] in ('ne', 'eq'):
+                return ('const', int(d.extra['pred'] == 'ne'))
+        if d.op == 'sub' and ev(d.ops[0], env, nz) == ('const', 0):
+            a = ev(d.ops[1], env, nz)
+            if a[0] == 'nonzero':
+                return a
+            if a[0] == 'const':
+                return ('const', -a[1])
+        return ('unknown', '%s = %s' % (v, d.text.strip()[:80] if d.text else d.op))
+
+    def walk(prev, blk, env, nz, path):
+        if len(results) > maxpaths:
+            raise AnalysisBroken('%s: more than %d paths from the exit edge to a return' % (f.name, maxpaths))
+        if blk in path:
+            raise AnalysisBroken('%s: a path from the early exit %s->%s re-enters block %s before returning' % (f.name, b0, t0, blk))
+        path = path + [blk]
+        env = dict(env)
+        for i in f.blocks[blk].insns:
+            if i.op == 'phi':
+                for v, pb in i.extra['incoming']:
+                    if pb == prev:
+                        env[i.dst] = ev(v, env, nz)
+            elif i.op == 'ret':
+                results.append((ev(i.ops[0], env, nz) if i.ops else ('unknown', 'void'), path))
+                return
+            elif i.op == 'br':
+                if not i.extra.get('cond'):
+                    walk(blk, i.extra['targets'][0], env, nz, path)
+                    return
+                c = ev(i.extra['cond'], env, nz)
+                tt, tf = i.extra['targets']
+                d = f.defs.get(i.extra['cond'])
+                for tgt, truth in ((tt, True), (tf, False)):
+                    if c[0] == 'const' and bool(c[1]) != truth:
+                        continue
+                    if c[0] == 'nonzero' and not truth:
+                        continue
+                    nz2 = dict(nz)
+                    if d is not None and d.op == 'icmp' and re.match(r'^-?\d+$', d.ops[1]):
+                        k = int(d.ops[1])
+                        pred = d.extra['pred'] if truth else _NEG[d.extra['pred']]
+                        if (pred == 'ne' and k == 0) or (pred in ('sgt', 'ugt') and k >= 0) or (pred in ('sge', 'uge') and k >= 1) or (pred == 'slt' and k <= 0) or (pred == 'sle' and k < 0) or (pred == 'eq' and k != 0):
+                            nz2[_strip(f, d.ops[0])] = 'compared %s %d on this path' % (pred, k)
+                    walk(blk, tgt, env, nz2, path)
+                return
+            elif i.op == 'switch':
+                raise AnalysisBroken('%s: switch on a path from an early exit, not modelled' % f.name)
+    walk(b0, t0, {}, {}, [])
+    return results
